@@ -186,19 +186,21 @@ def one_class(ctx, cspec):
     from doctrans import parse
 
     spec = cspec.init
-    base = {"op": OP, "kind": "class_init", "via": "ast", "fn_kind": "self", "doc_style": spec.style, "doc_mode": spec.doc_mode,
+    inner = cspec.get("inner_name", "__init__")
+    base = {"op": OP, "kind": "class_init", "via": "ast", "fn_kind": spec.kind, "merged_function": "__init__" if inner == "__init__" else "other", "doc_style": spec.style, "doc_mode": spec.doc_mode,
             "doc_order": spec.order, "has_doc": spec.has_doc, "partial_pos_defaults": _partial(spec)}
     replay = {"src": cspec.src, "spec": {k: v for k, v in spec.items() if k != "src"}, "via": "class", "cvars": list(cspec.cvars),
-              "declared": list(cspec.get("declared", ()))}
+              "declared": list(cspec.get("declared", ())), "inner_name": inner}
     ns = exec_ns()
     exec(compile(cspec.src, "<generated>", "exec"), ns)
-    sig_names = [n for n in inspect.signature(ns[cspec.name].__init__).parameters if n not in ("self", "cls")]
+    sig_names = [n for n in inspect.signature(getattr(ns[cspec.name], inner)).parameters if n not in ("self", "cls")]
     try:
-        ir = parse.class_(ast.parse(cspec.src).body[0], merge_inner_function="__init__")
+        ir = parse.class_(ast.parse(cspec.src).body[0], merge_inner_function=inner)
     except Exception as e:
         ctx.report_exception(e, base, replay, stage="parse")
         return
     ctx.event("parse.class_merge")
+    ctx.feature("class_merged_with={}/{}".format("__init__" if inner == "__init__" else "other", spec.kind))
     ctx.feature("class_cvars={}".format(min(len(cspec.cvars), 3)))
     check_ir(ctx, base, replay, spec, ir, sig_names, "class_merge", cvars=tuple(cspec.cvars), declared=tuple(cspec.get("declared", ())))
     if cspec.get("declared"):
@@ -320,6 +322,12 @@ def run(ctx):
                 ctx.case(spec_sig(cspec.init) + ("class",), nontrivial=bool(cspec.init.params))
                 one_class(ctx, cspec)
                 mem_classes.append(cspec)
+            if i % 10 == 5:
+                # the merge is not tied to __init__: a static / class / instance method named otherwise
+                cspec = gen_class_with_init(ctx.rng, inner_name="build_zq", inner_kind=("static", "cls", "self")[(i // 10) % 3])
+                cspec["inner_name"] = "build_zq"
+                ctx.case(spec_sig(cspec.init) + ("class_other",), nontrivial=bool(cspec.init.params))
+                one_class(ctx, cspec)
             if not ctx.quick() or i % 4 == 0:
                 mem_batch.append(spec)
             if len(mem_batch) >= 40:
@@ -346,7 +354,8 @@ def replay(payload):
     if "spec" in rp:
         spec = FuncSpec(rp["spec"], src=rp["src"])
         if rp.get("via") == "class":
-            one_class(ctx, FuncSpec(src=rp["src"], init=spec, name="C_target", cvars=rp.get("cvars", []), declared=rp.get("declared", [])))
+            one_class(ctx, FuncSpec(src=rp["src"], init=spec, name="C_target", cvars=rp.get("cvars", []), declared=rp.get("declared", []),
+                                    inner_name=rp.get("inner_name", "__init__")))
         else:
             one_function(ctx, spec)
     return ctx
